@@ -615,6 +615,29 @@ def steps_units():
             u += _assume([un2])
     u.append(raw("specs_join_steps", _read("specs_join_steps.rs")))
     u.append(fns(F_JO, [JOIN_STEPS, THREAD_BUILDERS], self_ty="JoinOutput"))
+    # C09 / C16: the tail of generate_step (R15, statements from `let joiner =` to the end): which joiner, over which streams
+    u.append({"kind": "lifted", "file": F_JO, "self_ty": "JoinOutput", "func": "generate_step", "stmts_from": "let joiner = ",
+              "header": "impl<'a> JoinOutput<'a>",
+              "sig": "generate_step_tail(&self, step_number: usize, step_results_name: &Ident, def_streams: Vec<Option<TokenStream>>, "
+                     "step_streams: Vec<TokenStream>, is_async: bool, is_try: bool) -> TokenStream",
+              "spec": fn("generate_step_tail", "r", label="JoinOutput::generate_step_tail",
+                         requires=["self.branch_count == self.depths@.len()", "is_async == self.config.is_async"],
+                         ensures=["r@ == step_tail_spec(is_async, seq_toks(def_streams@), step_results_name.toks(), "
+                                  "joiner_spec(count_active(self.depths@, step_number as int), self.custom_joiner, is_async, is_try, opt_path(self.futures_crate_path)), "
+                                  "seq_toks_sep(step_streams@, ','), seq_toks(step_streams@), "
+                                  "tb_spec(is_async, self.config.is_spawn, self.depths@, step_number as int), "
+                                  "sj_spec(is_async, self.config.is_spawn, self.depths@, step_number as int, step_results_name.toks()))"],
+                         subst=[{"find": "(a.into(), b.into())", "replace": "(Some(a), Some(b))", "why": "Into<Option<T>> for T is Some (std: impl<T> From<T> for Option<T>)"}],
+                         closures={
+                             "||#0": {"params": [], "ret": "(r: Option<TokenStream>)",
+                                      "ensures": ["match r { Some(t) => is_async && t@ == path_macro((match self.futures_crate_path { Some(p) => p.ptoks(), None => no_toks() }), if is_try { \"try_join\"@ } else { \"join\"@ }), None => !is_async }"]},
+                             "|joiner|": {"params": ["TokenStream"], "ret": "(r: TokenStream)",
+                                          "ensures": ["r@ == bg(bt(no_toks(), joiner@), Delim::Paren, bt(no_toks(), seq_toks_sep(step_streams@, ',')))"]},
+                             "||#1": {"params": [], "ret": "(r: TokenStream)",
+                                      "ensures": ["r@ == bi(bp(bt(no_toks(), seq_toks(step_streams@)), '.'), \"await\"@)"]},
+                             "|(a, b)|": {"id": "AB", "params": ["(TokenStream, TokenStream)"], "ret": "(r: (Option<TokenStream>, Option<TokenStream>))",
+                                          "ensures": ["r.0 == Some(__ABp0.0)", "r.1 == Some(__ABp0.1)"]},
+                         })})
     return u
 
 
@@ -864,8 +887,9 @@ OBLIGATIONS = {
     "C04": [("steps", "JoinOutput::join_steps"), ("steps", "lemma_join_comma"), ("steps", "lemma_count_take_step"), ("gen", "JoinOutput::generate_results_transposer"), ("gen", "JoinOutput::active_step_branch_count"), ("gen", "JoinOutput::extract_results_tuple"), ("gen", "lemma_refs_toks"), ("gen", "lemma_filter_tokenizable"),
             ("gen", "JoinOutput::is_branch_active_in_step"), ("gen", "JoinOutput::generate_indexed_step_results_name"),
             ("gen", "JoinOutput::branch_result_name"), ("gen", "JoinOutput::branch_result_pat")],
-    "C07": [("entries", "lemma_entry_table")],
+    "C07": [("steps", "JoinOutput::generate_thread_builders_and_spawn_joiners"), ("steps", "JoinOutput::generate_step_tail"), ("steps", "lemma_concat_all"), ("entries", "lemma_entry_table")],
     "C13": [("guards", "Handler::is_map"), ("guards", "Handler::is_then"), ("guards", "Handler::is_and_then"), ("guards", "new_guards"), ("gen", "JoinOutput::generate_handle"), ("gen", "JoinOutput::extract_results_tuple"), ("gen", "JoinOutput::generate_results_transposer")],
+    "C09": [("steps", "JoinOutput::generate_step_tail")],
     "C05": [("steps", "JoinOutput::join_steps"), ("steps", "lemma_join_comma"), ("steps", "lemma_count_take_step"), ("gen", "JoinOutput::generate_results_transposer"), ("parse", "parse_until_suffix"), ("parse", "ActionGroup::parse_stream"),
             ("core", "ActionGroup::to_wrapper_action_expr"), ("core", "ActionGroup::new"), ("core", "ExprGroup::application_type")],
     "C12": [("steps", "JoinOutput::join_steps"), ("steps", "lemma_join_comma"), ("steps", "lemma_count_take_step"), ("builder", "ActionExprChainBuilder::build_from_parse_stream"), ("gen", "JoinOutput::branch_result_name"), ("gen", "JoinOutput::branch_result_pat")],
@@ -875,7 +899,7 @@ OBLIGATIONS = {
             ("gen", "JoinOutput::generate_def_and_step_streams"), ("gen", "JoinOutput::expand_process_expr"),
             ("core", "ProcessExpr::to_tokens")],
     "C14": [("parse", "parse_until_suffix"), ("det", "lemma_first_match_is_longest"), ("optable", "lemma_operator_tables")],
-    "C16": [("guards", "new_init_lazy_branches"), ("guards", "new_init_transpose")],
+    "C16": [("steps", "JoinOutput::generate_step_tail"), ("guards", "new_init_lazy_branches"), ("guards", "new_init_transpose")],
     "C17": [("sep", "is_block_expr"), ("sep", "JoinOutput::separate_block_expr_process"), ("sep", "JoinOutput::separate_block_expr_err"), ("sep", "JoinOutput::separate_block_expr_initial"), ("sep", "lemma_sep_step")] + [("names", "lemma_names_never_clash"), ("names", "lemma_names_table"), ("names", "lemma_name3_injective"), ("names", "lemma_name1_injective"), ("names", "lemma_distinguishable"), ("names", "lemma_names_strlits"), ("gen", "JoinOutput::generate_def_and_step_streams")] + [("core", n) for n in ['construct_var_name', 'construct_step_results_name', 'construct_result_name', 'construct_thread_builder_name', 'construct_inspect_fn_name', 'construct_spawn_tokio_fn_name', 'construct_results_name', 'construct_handler_name', 'construct_internal_value_name', 'construct_thread_builder_fn_name', 'construct_expr_wrapper_name']],
     "C20": [("core", n) for n in ['construct_var_name', 'construct_step_results_name', 'construct_result_name', 'construct_thread_builder_name', 'construct_inspect_fn_name', 'construct_spawn_tokio_fn_name', 'construct_results_name', 'construct_handler_name', 'construct_internal_value_name', 'construct_thread_builder_fn_name', 'construct_expr_wrapper_name']],
     "C10": [("sep", "JoinOutput::separate_block_expr_process"), ("sep", "JoinOutput::separate_block_expr_err"), ("sep", "JoinOutput::separate_block_expr_initial"), ("sep", "is_block_expr"), ("sep", "err_is_replaceable"), ("sep", "initial_is_replaceable"), ("sep", "lemma_sep_step"), ("sep", "lemma_defs_empty"), ("sep", "lemma_any_block_upto_step")] + [("core", "ProcessExpr::is_replaceable"), ("core", "ProcessExpr::replace_inner_exprs"), ("core", "ErrExpr::replace_inner_exprs"),
